@@ -67,6 +67,10 @@ FUNCS = {
     "pcovr_covariance": "skmatter.utils",
     "pcovr_kernel": "skmatter.utils",
     "train_test_split": "skmatter.model_selection",
+    "effdim": "skmatter.utils",
+    "oas": "skmatter.utils",
+    "check_lr_fit": "skmatter.utils",
+    "check_krr_fit": "skmatter.utils",
 }
 ALL_CLASSES = list(SELECTORS) + list(OTHERS)
 
